@@ -33,15 +33,15 @@ T2 = "_ipp._tcp.local."
 
 def floors(tier):
     q = tier == "quick"
-    return {"c17.goodbyes": 200 if q else 20000, "c17.quiet": 400 if q else 40000, "c17.lookups": 100 if q else 10000, "c17.second_close": 400 if q else 40000,
+    return {"c17.goodbyes": 1500 if q else 150000, "c17.quiet": 2500 if q else 300000, "c17.lookups": 1000 if q else 100000, "c17.second_close": 2500 if q else 300000,
             "c17.threads": 1 if q else 4}
 
 
 def plan(tier, seed):
     if tier == "quick":
-        n, per, thr = 16, 30, 1
+        n, per, thr = 16, 200, 1
     else:
-        n, per, thr = 64, 900, 1
+        n, per, thr = 64, 6000, 1
     specs = [{"seed": seed, "shard": i, "per": per, "tier": tier, "threads": 0} for i in range(n)]
     for k in range(2 if tier == "quick" else 6):
         specs.append({"seed": seed, "shard": 1000 + k, "per": 0, "tier": tier, "threads": thr})
